@@ -70,7 +70,9 @@ func GetMessageOfEviction(ssn *framework.Session, actionType framework.ActionTyp
 		msg := api.GetReclaimMessage(preempteeTask, preemptorJob)
 
 		var queueDetails string
-		if reclaimeeQueue.ParentQueue == reclaimerQueue.ParentQueue {
+		if reclaimeeQueue.ParentQueue == reclaimerQueue.ParentQueue ||
+			reclaimerParentQueue == nil || reclaimeeParentQueue == nil {
+			// siblings, or one of the queues is a top-level queue (no parent to report on): describe the queues themselves
 			queueDetails = getReclaimMessageQueuesDetails(ssn, preempteeTask, preemptorJob,
 				reclaimerQueue, reclaimeeQueue)
 		} else {
